@@ -231,6 +231,22 @@ def helper_facts(fn, cond):
     return out
 
 
+_FLIP_OP = {"<": ">", ">": "<", "<=": ">=", ">=": "<=", "==": "==", "!=": "!="}
+
+
+def cond_forms(fn, cond, truth, deep=False):
+    """The condition's text in every equivalent operand order: `(a <= b)` is also `(b >= a)`."""
+    txt, t = cond_text(fn, cond, truth, deep)
+    out = [(txt, t)]
+    d = cond_def(fn, cond)
+    while d.get("k") == "un" and d.get("op") == "!":
+        d = cond_def(fn, d["e"])
+    if d.get("k") == "bin" and d.get("op") in _FLIP_OP:
+        render = (lambda x: deep_text(fn, x, user=False)) if deep else (lambda x: inline_text(fn, x))
+        out.append(("(%s %s %s)" % (render(d["r"]), _FLIP_OP[d["op"]], render(d["l"])), t))
+    return out
+
+
 class TextGate(Monitor):
     """Must-pass-through gate for MIR: alternatives are (substring-tuple, want) tested against the
     inlined text of branch conditions; for `match` switches the text is `<scrutinee>=<Variant>` and
@@ -253,14 +269,15 @@ class TextGate(Monitor):
         if cond is None:
             return m
         if truth is not None:
-            txt, t = cond_text(self.fn, cond, truth, self.deep)
+            forms = cond_forms(self.fn, cond, truth, self.deep)
         elif isinstance(edge.lab, dict) and (edge.lab.get("name") or edge.lab.get("case") or edge.lab.get("default")):
             txt, t = cond_text(self.fn, cond, True, self.deep)
-            txt, t = "%s=%s" % (txt, edge.lab.get("name") or ("default" if edge.lab.get("default") else edge.lab.get("v"))), True
+            forms = [("%s=%s" % (txt, edge.lab.get("name") or ("default" if edge.lab.get("default") else edge.lab.get("v"))), True)]
         else:
             return m
+        t = forms[0][1]
         for needles, want in self.alts:
-            if t == want and all(n in txt for n in needles):
+            if any(ft == want and all(n in ftxt for n in needles) for ftxt, ft in forms):
                 if RS_COND_HITS is not None:
                     RS_COND_HITS.add((self.fn.name, bid))
                 return 1
